@@ -1,6 +1,7 @@
 package vc
 
 import (
+	"go/types"
 	"sort"
 
 	"golang.org/x/tools/go/ssa"
@@ -137,4 +138,226 @@ func (e *Engine) inferPure(fn *ssa.Function) bool {
 	}
 	e.pureCache[fn] = res
 	return res
+}
+
+// ---------------------------------------------------------------------------
+// inferred write summaries (frames of calls without a contract)
+
+type modSummary struct {
+	top   bool
+	comps map[string]string
+}
+
+// summary computes, syntactically and transitively, the heap components a repo
+// function may write. Calls through interfaces or function values and calls
+// into foreign code that may call back give "top".
+func (e *Engine) summary(fn *ssa.Function) *modSummary {
+	if s, ok := e.sumCache[fn]; ok {
+		return s
+	}
+	s := &modSummary{top: true, comps: map[string]string{}}
+	e.sumCache[fn] = s // recursion: top
+	if fn.Blocks == nil {
+		return s
+	}
+	if e.sumFrame == nil {
+		vc := e.newVC(nil)
+		e.sumFrame = &frame{vc: vc, vals: map[ssa.Value]TV{}, lvs: map[ssa.Value]*LV{}, callOrd: map[string]int{}}
+	}
+	f := e.sumFrame
+	res := &modSummary{comps: map[string]string{}}
+	ok := true
+	func() {
+		defer func() {
+			if r := recover(); r != nil {
+				if _, isU := r.(unsupported); isU {
+					ok = false
+					return
+				}
+				panic(r)
+			}
+		}()
+		for _, b := range fn.Blocks {
+			for _, in := range b.Instrs {
+				switch x := in.(type) {
+				case *ssa.Store:
+					ms := newModSet()
+					f.storeComps(x.Addr, ms)
+					if ms.star {
+						res.top = true
+					}
+					for c, me := range ms.m {
+						local := !me.all && len(me.refs) > 0
+						for _, r := range me.refs {
+							al, isA := r.(*ssa.Alloc)
+							if !isA || allocEscapes(al) {
+								local = false
+							}
+						}
+						if !local {
+							res.comps[c] = me.sort
+						}
+					}
+				case *ssa.MapUpdate:
+					mt := x.Map.Type().Underlying().(*types.Map)
+					k, v := f.sortOf(mt.Key()), f.sortOf(mt.Elem())
+					res.comps[compMdom(k, v)] = "(Array Int (Array " + k + " Bool))"
+					res.comps[compMval(k, v)] = "(Array Int (Array " + k + " " + v + "))"
+				case *ssa.Go:
+					res.top = true
+				case ssa.CallInstruction:
+					c := x.Common()
+					if bi, isB := c.Value.(*ssa.Builtin); isB {
+						switch bi.Name() {
+						case "copy", "append":
+							if sl, ok := c.Args[0].Type().Underlying().(*types.Slice); ok {
+								es := f.sortOf(sl.Elem())
+								res.comps[compMem(es)] = arr2(es)
+							}
+						case "delete":
+							mt := c.Args[0].Type().Underlying().(*types.Map)
+							k, v := f.sortOf(mt.Key()), f.sortOf(mt.Elem())
+							res.comps[compMdom(k, v)] = "(Array Int (Array " + k + " Bool))"
+						case "clear", "close":
+							res.top = true
+						}
+						continue
+					}
+					callee := c.StaticCallee()
+					if callee == nil {
+						res.top = true
+						continue
+					}
+					if fc := e.funcC[callee]; fc != nil && fc.Pure {
+						continue
+					}
+					if fc := e.externs[callee.String()]; fc != nil && fc.Pure {
+						continue
+					}
+					if callee.Pkg != nil && e.isRepoPkg(callee.Pkg.Pkg) {
+						cs := e.summary(callee)
+						if cs.top {
+							res.top = true
+						}
+						for k, v := range cs.comps {
+							res.comps[k] = v
+						}
+						continue
+					}
+					if f.isPureCallee(c) {
+						continue
+					}
+					if comps, closed := f.foreignFrame(c); closed {
+						for k, v := range comps {
+							res.comps[k] = v
+						}
+						continue
+					}
+					res.top = true
+				}
+			}
+		}
+	}()
+	if !ok {
+		res.top = true
+	}
+	e.sumCache[fn] = res
+	return res
+}
+
+// closedType: values of this type cannot reach repo objects or code
+// (no interfaces, functions, maps, channels, pointers to open types).
+func closedType(t types.Type, depth int) bool {
+	if depth > 6 {
+		return false
+	}
+	switch u := t.Underlying().(type) {
+	case *types.Basic:
+		return u.Kind() != types.UnsafePointer
+	case *types.Slice:
+		return closedType(u.Elem(), depth+1)
+	case *types.Array:
+		return closedType(u.Elem(), depth+1)
+	case *types.Pointer:
+		return closedType(u.Elem(), depth+1)
+	case *types.Struct:
+		for i := 0; i < u.NumFields(); i++ {
+			if !closedType(u.Field(i).Type(), depth+1) {
+				return false
+			}
+		}
+		return true
+	}
+	return false
+}
+
+// foreignFrame: a foreign function all of whose arguments are of closed types
+// can only write memory reachable from them: the rows of slices and the
+// pointees passed in.
+func (f *frame) foreignFrame(c *ssa.CallCommon) (map[string]string, bool) {
+	comps := map[string]string{}
+	var add func(t types.Type, depth int)
+	add = func(t types.Type, depth int) {
+		if depth > 6 {
+			return
+		}
+		switch u := t.Underlying().(type) {
+		case *types.Slice:
+			es := f.sortOf(u.Elem())
+			comps[compMem(es)] = arr2(es)
+			add(u.Elem(), depth+1)
+		case *types.Pointer:
+			for _, cell := range f.objCells(u.Elem(), "0") {
+				comps[cell.comp] = cell.sort
+			}
+			add(u.Elem(), depth+1)
+		case *types.Struct:
+			for i := 0; i < u.NumFields(); i++ {
+				add(u.Field(i).Type(), depth+1)
+			}
+		case *types.Array:
+			add(u.Elem(), depth+1)
+		}
+	}
+	for _, a := range c.Args {
+		if !closedType(a.Type(), 0) {
+			return nil, false
+		}
+		add(a.Type(), 0)
+	}
+	return comps, true
+}
+
+// havocComps havocs whole components, keeping non-escaping locals.
+func (f *frame) havocComps(st *bstate, comps map[string]string) {
+	vc := f.vc
+	type keep struct {
+		c   cellRef
+		old string
+	}
+	var keeps []keep
+	for fr := f; fr != nil; fr = fr.caller {
+		for _, la := range fr.locals {
+			if la.escaped {
+				continue
+			}
+			for _, c := range f.objCells(la.ty, la.ref.T) {
+				if _, hit := comps[c.comp]; hit {
+					keeps = append(keeps, keep{c, sel(vc.comp(st, c.comp, c.sort), c.ref)})
+				}
+			}
+		}
+	}
+	var ks []string
+	for k := range comps {
+		ks = append(ks, k)
+	}
+	sort.Strings(ks)
+	for _, k := range ks {
+		vc.comps[k] = comps[k]
+		st.heap[k] = vc.fresh(k+"@call", comps[k])
+	}
+	for _, k := range keeps {
+		vc.assert(eq(sel(vc.comp(st, k.c.comp, k.c.sort), k.c.ref), k.old))
+	}
 }
